@@ -84,6 +84,12 @@ class HAPServer:
         if hap_server_protocol is not None:
             hap_server_protocol.discard_stale_event(aid, iid, value)
 
+    def discard_event(self, aid: int, iid: int, client_addr: Tuple[str, int]) -> None:
+        """Drop the event queued for a client that unsubscribed from a characteristic."""
+        hap_server_protocol = self.connections.get(client_addr)
+        if hap_server_protocol is not None:
+            hap_server_protocol.discard_event(aid, iid)
+
     def push_event(
         self, data: bytes, client_addr: Tuple[str, int], immediate: bool = False
     ) -> bool:
